@@ -21,6 +21,10 @@ NA = {
 PENDING = {k: "simulation target (DESIGN 3) whose check is still being built in this session; not claimed until its check is registered" for k in ("C06", "C11", "C13", "C14", "C18", "C19")}
 
 CHECKS = {
+ "C13": dict(engine="threadsim", category="exploration", design="DESIGN.md section 3 (C13)",
+   technique="deterministic simulation: seeded baton scheduler + virtual clock with forward jumps over the real Delay/Promise/Future/ThreadPoolExecutor, linearizability vs write-once cell, timeout rules on virtual time",
+   text="Seeded schedule search over 2-4 real threads racing one delay / promise / future (real pool, real stdlib worker loop on sim primitives) with bodies that yield, sleep in virtual time or throw from a palette incl. TimeoutError, timed derefs whose deadlines collide with deliveries, forward clock jumps and pool pressure; oracles: body at most one at a time and never after a normal return, all derefs agree, promise history linearizable against a write-once cell, timed deref yields the timeout value only if nothing completed before its virtual deadline and never early, future deref == body outcome, realized? monotone; lost wake-ups surface as kernel deadlock. Sampling with measured reach.",
+   note="Trusted: sim Lock/RLock/Condition/Semaphore/SimpleQueue/Thread semantics (no spurious wake-ups, FIFO notify), virtual clock advancing only at idle or by injected jumps; concurrent.futures runs real code on those primitives."),
  "C12": dict(engine="threadsim", category="exploration", design="DESIGN.md section 3 (C12)",
    technique="deterministic simulation: seeded baton scheduler (random walk + PCT) over real threads, linearizability oracle vs sequential register, callback fault injection",
    text="Seeded schedule search (random walk and PCT d<=3, line granularity plus opcode granularity in 15% of runs) over 2-3 real threads x 1-3 atom operations with throwing/slow update fns and rejecting validators; every complete history is checked for linearizability against a sequential register with unique values, validator invisibility and watch transitions; solo runs check bounded termination over NaN-like values. Sampling with measured reach, not enumeration.",
